@@ -46,6 +46,7 @@ type Contract struct {
 	HasModifies bool
 	Modifies    []Expr
 	ModSrc      []string
+	ModWhen     []Expr // parallel to Modifies: nil = unconditional; else the target may be modified only when the condition (over the entry state) holds
 	// panics: "" unspecified, "never", "only_if", "iff", "any"
 	PanicMode  string
 	PanicCond  Expr
@@ -380,6 +381,23 @@ func (db *SpecDB) parseSpecFile(file string, pkgPath string) {
 				if rest == "nothing" || rest == "" {
 					continue
 				}
+				var when Expr
+				whenSrc := ""
+				if strings.HasPrefix(rest, "when ") {
+					// modifies when <cond> : target, target ...
+					i := strings.Index(rest, " : ")
+					if i < 0 {
+						errf(en.ln, "expected: modifies when <condition> : <targets>")
+						continue
+					}
+					we, err := parseExpr(rest[len("when "):i])
+					if err != nil {
+						errf(en.ln, "%v", err)
+						continue
+					}
+					when, whenSrc = we, " (when "+strings.TrimSpace(rest[len("when "):i])+")"
+					rest = strings.TrimSpace(rest[i+3:])
+				}
 				es, err := parseExprList(rest)
 				if err != nil {
 					errf(en.ln, "%v", err)
@@ -387,7 +405,8 @@ func (db *SpecDB) parseSpecFile(file string, pkgPath string) {
 				}
 				cur.Modifies = append(cur.Modifies, es...)
 				for _, e := range es {
-					cur.ModSrc = append(cur.ModSrc, exprString(e))
+					cur.ModSrc = append(cur.ModSrc, exprString(e)+whenSrc)
+					cur.ModWhen = append(cur.ModWhen, when)
 				}
 			case "panics":
 				m := firstWord(rest)
